@@ -33,17 +33,19 @@ func rulesExtra(c *Ctx) {
 // log id with the store's and fail on a mismatch.
 func (c *Ctx) ruleT3() {
 	n := 0
+	var rfns []*ssa.Function
 	for _, f := range c.fnsInPkg("stores/replicator") {
-		if c.isTestFile(f.Pos()) {
-			continue
+		if !c.isTestFile(f.Pos()) {
+			rfns = append(rfns, f)
 		}
-		eachCall(f, func(call ssa.CallInstruction) {
-			if calleeFull(call) != logMod+".NewFromEntryHash" || call.Value() == nil {
-				return
-			}
+	}
+	byFn := c.fetchedLogsByFn(rfns)
+	for _, f := range rfns {
+		for _, fv := range byFn[f] {
+			call := fv.(ssa.Instruction)
 			n++
 			cons := fnKey(f) + "→fetch#log-id"
-			d := derived([]ssa.Value{call.Value()}, flowOpts{throughCalls: true})
+			d := derived([]ssa.Value{fv}, flowOpts{throughCalls: true})
 			var tests []*ssa.If
 			mismatchEdge := map[*ssa.If]int{}
 			eachInstr(f, func(in ssa.Instruction) {
@@ -71,7 +73,7 @@ func (c *Ctx) ruleT3() {
 			})
 			if len(tests) == 0 {
 				c.bad("T3", cons, call.Pos(), "the fetch step never compares the log id of what it fetched with the store's: the fetched log is created with the store's id whatever its entries say, and Join merges that log's heads even when it adds none of its entries, so a valid entry of ANOTHER database (announced as a head or referenced as an ancestor) shows up among this log's heads and values")
-				return
+				continue
 			}
 			viol := false
 			for _, iff := range tests {
@@ -84,7 +86,7 @@ func (c *Ctx) ruleT3() {
 			if !viol {
 				c.ok("T3", cons, call.Pos(), "a fetched entry whose log id differs from the store's makes the fetch step fail")
 			}
-		})
+		}
 	}
 	c.floor("T3", "replicator fetch steps", n, 1)
 }
